@@ -1,5 +1,6 @@
 CHECK = {
     "mode": "inpkg", "pkg": "server", "files": ["fr_registry_test.go", "c04_store_test.go", "c15_race_test.go"],
+    "yield_points": ["server/sched.go", "server/routes.go"],  # yields in front of lock statements and channel operations (see check: build)
     "race": True,
     "build_timeout": 1500,
     "level": "exploration",
